@@ -218,6 +218,11 @@ def space(tier):
     """yields (family, Node)"""
     quick = tier == "quick"
     A = alphabet()
+    if quick:
+        # one program costs ~0.45 CPU-s (compile + run): the quick tier keeps one value per class of the alphabet
+        # (zero, small, the 2**31 / 2**63 / 2**64 edges, negatives, floats incl. -0.0, a Bool); thorough uses all 22
+        keep = {"0", "1", "7", "2147483648", "9223372036854775808", "18446744073709551615", "-1", "-7", "-2147483648", "1.5", "-0.0", "-2.5", "True"}
+        A = [a for a in A if str(a.leaf) in keep or repr(a.leaf) in keep]
     NF = [a for a in A if not isinstance(a.leaf, float)]
     allops = BIN_ARITH + BIN_CMP + BIN_BOOL + BIN_BIT
     inner_ops = BIN_ARITH + BIN_CMP + BIN_BOOL
@@ -235,15 +240,15 @@ def space(tier):
     # unary over binary, binary over unary
     S6 = [lit(v) for v in SMALL6]
     S4 = [lit(v) for v in SMALL4]
-    pool = S4 if quick else A
+    pool = S4[:3] if quick else A
     for u in UNARY:
-        for op in (inner_ops if quick else allops):
+        for op in (BIN_ARITH if quick else allops):
             for a in pool:
                 for b in pool:
                     yield "unary-of-binary", unop(u, binop(op, a, b))
     pool = S4 if quick else S6
     for u in UNARY[:3]:
-        for op in inner_ops:
+        for op in (BIN_ARITH if quick else inner_ops):
             for a in pool:
                 for b in pool:
                     yield "binary-of-unary", binop(op, unop(u, a), b)
@@ -251,7 +256,7 @@ def space(tier):
                         yield "binary-of-unary", binop(op, a, unop(u, b))
     # depth-2 nestings
     if quick:
-        S = [lit(v) for v in SMALL3]
+        S = [lit(v) for v in SMALL3[:2]]
         ops2 = ["+", "-", "*", "//", "%", "<"]
     else:
         S = S6
